@@ -6,6 +6,7 @@ import Duckling.Lemmas.LexName
 import Duckling.Lemmas.LexFlat
 import Duckling.Lemmas.LexFlatB
 import Duckling.Lemmas.LexExpr
+import Duckling.Lemmas.EvalGroup
 /-
   C04 — expressions evaluate with the documented precedence and typing.
 
@@ -48,10 +49,22 @@ import Duckling.Lemmas.LexExpr
                                  quotation mark, blanks and operator characters included) — joined by any of the fourteen operators, with any
                                  layout of blanks, any length: the scanner produces exactly the alternating value / operator tokens;
   * `C04_expr_value`            and `Tokenizer.tokenize` of such a text is the evaluation of the reference precedence parse of those tokens.
-                                 What the scanner theorems leave out: parenthesised groups (one token for the scanner, evaluated by a recursive
-                                 call), `!( )`, signed and decimal literals, names beginning with T/F inside compound expressions.
-  That the scanner recognises every rendering of a compound expression (operators, blanks, parentheses, strings, names) is validated
-  by the correspondence only (DESIGN.md C04) — `partial` in that respect.
+  * **parentheses** (`Lemmas/LexGroup`, `Lemmas/EvalGroup`): a leaf may also be a parenthesised group `( t )` or `!( t )` around ANY text `t`
+                                 that is balanced (`GoodGrp`: the group's closing parenthesis is the one after `t`; parentheses inside string
+                                 literals do not count; at most the parenthesis limit deep) — `C04_lex_expr` scans it into ONE group token, and
+  * `C04_group_value`           `Tokenizer.tokenize` of a flat expression whose leaves include groups is the evaluation of the reference
+                                 precedence parse in which **every group leaf has the value `tokenize` gives the text between its parentheses**
+                                 (negated for `!( )`) — so parentheses override precedence, to any nesting depth (apply the theorem again to the
+                                 inner text).  The evaluator's recursion through the scanner carries a fuel argument in the model;
+                                 `eval_fuel_mono` shows the fuel is immaterial, `reduceAll_weight` bounds what an evaluation needs.
+  * `C04_group_leaf`            the value of a group leaf, stated outright;
+  * `C04_redundant_parens`      `( t )` evaluates to what `t` evaluates to (value or error) — redundant parentheses change nothing;
+                                 `C04_not_value`: `!( t )` is the negated truth value of `t`.
+                                 Guard of these three: the model's own evaluation of `t` does not end in its "recursion fuel ran out" answer
+                                 (`Outcome.isFuel`; the fuel is 3·length+10 and no input is known to exhaust it, but sufficiency for arbitrary
+                                 text is not proved).
+                                 What the scanner theorems still leave out: signed and decimal literals, names beginning with T/F inside compound
+                                 expressions — correspondence and the reference-evaluator oracle there (`partial` in that respect).
 -/
 namespace Duckling.Props.C04
 open Duckling
@@ -221,5 +234,151 @@ theorem C04_expr_value (vars : VarEnv) (hn : NamesOk (vars.map (·.1))) (lead : 
 
 theorem C04_lex_name (names : List Str) (x : Str) (hin : names.contains x = true) (hlen : 0 < x.length) (hc : NameStart (x[0])) :
     lex names x = .ok [⟨.var, x, false⟩] := lex_name names x hin hlen hc
+
+/-! ### parentheses -/
+
+/-- the reference precedence parse of a flat expression's tokens -/
+def exprTree (a : Atom) (rest : ExprRest) : Tree Tok Str := refL ranks.reverse (Tree.leaf a.tok) (exprPairs rest)
+
+theorem wPairs_exprPairs_le (names : List Str) (rest : ExprRest) (hrest : GoodExprRest names rest) :
+    wPairs (exprPairs rest) ≤ (exprRestText rest).length := by
+  induction rest with
+  | nil => simp [wPairs, exprPairs]
+  | cons t r ih =>
+    obtain ⟨sp1, op, cls, sp2, a'⟩ := t
+    obtain ⟨_, hop, _, _⟩ := hrest (sp1, op, cls, sp2, a') List.mem_cons_self
+    have hr : GoodExprRest names r := fun u hu => hrest u (List.mem_cons_of_mem _ hu)
+    obtain ⟨c0, r0, hop0, _⟩ := op_head_delim op cls hop
+    have hopl : 1 ≤ op.length := by rw [hop0]; simp
+    have hle := wLeaf_atom_le a'
+    have := ih hr
+    simp only [wPairs, exprPairs, List.map_cons, List.sum_cons, wTree, exprRestText, List.flatMap_cons, List.length_append] at this ⊢
+    omega
+
+theorem wTree_exprTree (names : List Str) (a : Atom) (rest : ExprRest) (hrest : GoodExprRest names rest) :
+    wTree (exprTree a rest) = wLeaf a.tok + wPairs (exprPairs rest) := by
+  have hb := C04_build (Tree.leaf a.tok) (exprPairs rest) (exprPairs_opsIn names rest hrest)
+  have hw := reduceAll_weight ranks (Tree.leaf a.tok) (exprPairs rest)
+  rw [hb] at hw
+  simpa [wPairs, wTree, exprTree] using hw
+
+/-- **parentheses**: `Tokenizer.tokenize` of a flat expression over numbers, names, TRUE/FALSE, string literals AND parenthesised
+    groups is the (fuel-free) evaluation of the reference precedence parse of its tokens, in which a group leaf `( t )` / `!( t )` has
+    the value `Tokenizer.solve` gives the text `t` on its own (`leafValS`, `C04_group_leaf`) -/
+theorem C04_group_value (vars : VarEnv) (hn : NamesOk (vars.map (·.1))) (lead : Str) (a : Atom) (rest : ExprRest) (trail : Str)
+    (hlead : AllSp lead) (htrail : AllSp trail) (ha : GoodAtom (vars.map (·.1)) a) (hrest : GoodExprRest (vars.map (·.1)) rest)
+    (hfuel : (evalTreeS vars (exprTree a rest)).isFuel = false) :
+    tokenize vars (exprText lead a rest trail) = (evalTreeS vars (exprTree a rest) >>= fun v => .ok v.normalise) := by
+  rw [C04_expr_value vars hn lead a rest trail hlead htrail ha hrest]
+  have hw := wTree_exprTree _ a rest hrest
+  have h1 := wLeaf_atom_le a
+  have h2 := wPairs_exprPairs_le _ rest hrest
+  have hlen : (exprText lead a rest trail).length = lead.length + (a.text.length + ((exprRestText rest).length + trail.length)) := by
+    simp [exprText]
+  rw [show refL ranks.reverse (Tree.leaf a.tok) (exprPairs rest) = exprTree a rest from rfl,
+    evalTree_eq_S vars (exprTree a rest) _ (by omega) hfuel]
+
+/-- the value of a group leaf: what `tokenize` gives the text between the parentheses, negated (as a truth value) for `!( )` -/
+theorem C04_group_leaf (vars : VarEnv) (neg : Bool) (inner : Str) :
+    leafValS vars (Atom.grp neg inner).tok =
+      (tokenize vars inner >>= fun v => .ok (if neg then .bool (!v.truthy) else v)) := by
+  simp only [leafValS, Atom.tok, stripParens_grp, tokenize]
+  cases neg with
+  | false =>
+    simp only [Bool.false_eq_true, if_false]
+    cases solveOpp vars (evalFuel inner) inner false <;> rfl
+  | true =>
+    simp only [if_true]
+    exact C04_not vars (3 * inner.length + 9) inner
+
+theorem tokenize_normalised (vars : VarEnv) (s : Str) (v : Val) (h : tokenize vars s = .ok v) : v.normalise = v := by
+  unfold tokenize evalFuel at h
+  rw [solveOpp] at h
+  cases hl : lex (vars.map (·.1)) s with
+  | ok toks =>
+    simp only [hl, Outcome.bind_ok] at h
+    cases hfl : toFlat toks with
+    | none => simp [hfl] at h
+    | some hp =>
+      obtain ⟨hh, ps⟩ := hp
+      simp only [hfl] at h
+      split at h
+      · cases h
+      · cases he : evalTree vars (3 * s.length + 9) (reduceAll ranks hh ps).1 with
+        | ok w =>
+          simp only [he, Outcome.bind_ok, Bool.false_eq_true, if_false, Outcome.ok.injEq] at h
+          rw [← h]; exact normalise_idem w
+        | cerr k => simp [he, bind] at h
+        | crash e => simp [he, bind] at h
+        | oom w => simp [he, bind] at h
+  | cerr k => simp [hl, bind] at h
+  | crash e => simp [hl, bind] at h
+  | oom w => simp [hl, bind] at h
+
+theorem exprTree_single (a : Atom) : exprTree a [] = Tree.leaf a.tok := by
+  have hb := C04_build (Tree.leaf a.tok) [] (by intro o ho; simp [ops] at ho)
+  have : reduceAll ranks (Tree.leaf a.tok) ([] : Pairs Tok Str) = (Tree.leaf a.tok, []) := by
+    generalize ranks = rs
+    induction rs with
+    | nil => rfl
+    | cons r rs ih => rw [reduceAll]; simpa [reducePass] using ih
+  rw [this] at hb
+  simpa [exprTree, exprPairs] using (congrArg Prod.fst hb).symm
+
+/-- **redundant parentheses change nothing**: for any balanced text `t`, `( t )` evaluates to exactly what `t` evaluates to (value or
+    error), whatever names are in scope -/
+theorem C04_redundant_parens (vars : VarEnv) (hn : NamesOk (vars.map (·.1))) (hp : NoParenNames (vars.map (·.1))) (t : Str) (hg : GoodGrp t)
+    (hfuel : (tokenize vars t).isFuel = false) :
+    tokenize vars ('(' :: (t ++ [')'])) = tokenize vars t := by
+  have hleaf := C04_group_leaf vars false t
+  simp only [Bool.false_eq_true, if_false] at hleaf
+  have hS : evalTreeS vars (exprTree (.grp false t) []) = tokenize vars t := by
+    rw [exprTree_single, evalTreeS, hleaf]
+    cases tokenize vars t <;> rfl
+  have h := C04_group_value vars hn [] (.grp false t) [] [] (by simp [AllSp]) (by simp [AllSp]) ⟨hg, hp⟩ (by intro u hu; cases hu)
+    (by rw [hS]; exact hfuel)
+  rw [hS] at h
+  have htxt : exprText [] (.grp false t) [] [] = '(' :: (t ++ [')']) := by simp [exprText, exprRestText, Atom.text, grpText]
+  rw [htxt] at h
+  rw [h]
+  cases hv : tokenize vars t with
+  | ok v => simp only [Outcome.bind_ok]; rw [tokenize_normalised vars t v hv]
+  | cerr k => rfl
+  | crash e => rfl
+  | oom w => rfl
+
+/-- `!( t )` is the negated truth value of what `t` evaluates to -/
+theorem C04_not_value (vars : VarEnv) (hn : NamesOk (vars.map (·.1))) (hp : NoParenNames (vars.map (·.1))) (t : Str) (hg : GoodGrp t)
+    (hfuel : (tokenize vars t).isFuel = false) :
+    tokenize vars ('!' :: '(' :: (t ++ [')'])) = (tokenize vars t >>= fun v => .ok (.bool (!v.truthy))) := by
+  have hleaf := C04_group_leaf vars true t
+  simp only [if_true] at hleaf
+  have hS : evalTreeS vars (exprTree (.grp true t) []) = (tokenize vars t >>= fun v => .ok (.bool (!v.truthy))) := by
+    rw [exprTree_single, evalTreeS, hleaf]
+  have h := C04_group_value vars hn [] (.grp true t) [] [] (by simp [AllSp]) (by simp [AllSp]) ⟨hg, hp⟩ (by intro u hu; cases hu)
+    (by rw [hS]; cases hv : tokenize vars t with
+        | ok v => rfl
+        | cerr k => rfl
+        | crash e => rfl
+        | oom w => rw [hv] at hfuel; exact hfuel)
+  rw [hS] at h
+  have htxt : exprText [] (.grp true t) [] [] = '!' :: '(' :: (t ++ [')']) := by simp [exprText, exprRestText, Atom.text, grpText]
+  rw [htxt] at h
+  rw [h]
+  cases tokenize vars t <;> rfl
+
+/-- a balanced text in one more pair of parentheses is balanced (below the parenthesis limit) -/
+theorem goodGrp_wrap_example : GoodGrp "1+(2*3)".toList ∧ GoodGrp "(1+(2*3))".toList ∧ GoodGrp "\"a)\"+(x)".toList ∧
+    ¬ GoodGrp "1)+(2".toList := by
+  refine ⟨by unfold GoodGrp; decide, by unfold GoodGrp; decide, by unfold GoodGrp; decide, by unfold GoodGrp; decide⟩
+
+/-- non-vacuity of `C04_group_value`: `2*(1+3)` with the group `(1+3)` as a leaf -/
+example : GoodAtom [] (.num "2".toList) ∧ GoodExprRest [] [([], "*".toList, .math, [], .grp false "1+3".toList)] ∧
+    exprText [] (.num "2".toList) [([], "*".toList, .math, [], .grp false "1+3".toList)] [] = "2*(1+3)".toList := by
+  refine ⟨⟨by decide, by decide⟩, ?_, by decide⟩
+  intro t ht
+  simp only [List.mem_cons, List.mem_nil_iff, or_false] at ht
+  subst ht
+  exact ⟨by simp [AllSp], by decide, by simp [AllSp], by unfold GoodGrp; decide, fun nm h => by cases h⟩
 
 end Duckling.Props.C04
